@@ -64,6 +64,7 @@ var c04Routes = []c04Route{
 	{"int-wild", "/internal/wild/*", "/internal/wild/a/b", []string{"GET"}, "internal"},
 	{"int-any", "/internal/any", "/internal/any", c04AllMethods, "internal"},
 	{"int-root", "/internal", "/internal", []string{"GET"}, "internal"},
+	{"int-opt", "/internal/opt/:id", "/internal/opt/abc", []string{"GET", "OPTIONS", "HEAD", "PATCH", "TRACE"}, "internal"},
 	// parameterised routes of different depth: the router matches a :param on the ENCODED path (%2f does not end it)
 	{"int-p", "/internal/p/:id", "/internal/p/abc", []string{"GET"}, "internal"},
 	{"int-abc", "/internal/a/b/c/:id", "/internal/a/b/c/xyz", []string{"GET", "POST"}, "internal"},
@@ -558,6 +559,37 @@ func c04WrapTarget(t *rapid.T, p string, form string) string {
 	return p
 }
 
+// header sets that something on the way (browser, proxy, framework middleware) may give a meaning to
+var c04HeaderSets = map[string][]string{
+	"cors-preflight":         {"Origin: https://app.example", "Access-Control-Request-Method: POST"},
+	"cors-preflight-headers": {"Origin: https://app.example", "Access-Control-Request-Method: GET", "Access-Control-Request-Headers: authorization, content-type"},
+	"cors-preflight-null":    {"Origin: null", "Access-Control-Request-Method: DELETE"},
+	"origin-only":            {"Origin: http://{int}"},
+	"acr-method-only":        {"Access-Control-Request-Method: POST"},
+	"sec-fetch":              {"Sec-Fetch-Mode: cors", "Sec-Fetch-Site: cross-site"},
+	"method-override-get":    {"X-HTTP-Method-Override: GET"},
+	"method-override-opts":   {"X-HTTP-Method-Override: OPTIONS"},
+	"method-override-alt":    {"X-Method-Override: OPTIONS", "X-HTTP-Method: OPTIONS"},
+	"forwarded":              {"X-Forwarded-For: 127.0.0.1", "X-Forwarded-Host: localhost", "X-Forwarded-Proto: https", "Forwarded: for=127.0.0.1"},
+	"x-original-url":         {"X-Original-URL: /public/a/b", "X-Rewrite-URL: /public/a/b"},
+	"cookie":                 {"Cookie: session=abc"},
+	"accept":                 {"Accept: */*", "Content-Length: 0"},
+	"upgrade-websocket":      {"Upgrade: websocket", "Connection: Upgrade", "Sec-WebSocket-Key: dGhlIHNhbXBsZSBub25jZQ==", "Sec-WebSocket-Version: 13"},
+	"upgrade-h2c":            {"Upgrade: h2c", "Connection: Upgrade, HTTP2-Settings", "HTTP2-Settings: AAMAAABkAARAAAAAAAIAAAAA"},
+	"expect-continue":        {"Expect: 100-continue", "Content-Length: 0"},
+	"expect-other":           {"Expect: something"},
+	"keep-alive":             {"Connection: keep-alive"},
+	"te-trailers":            {"TE: trailers", "Trailer: Authorization"},
+}
+var c04HeaderSetNames = []string{"cors-preflight", "cors-preflight", "cors-preflight-headers", "cors-preflight-null", "origin-only", "acr-method-only", "sec-fetch",
+	"method-override-get", "method-override-opts", "method-override-alt", "forwarded", "x-original-url", "cookie", "accept",
+	"upgrade-websocket", "upgrade-h2c", "expect-continue", "expect-other", "keep-alive", "te-trailers"}
+
+// header fields that leave a request well-formed and whose presence must not change how the server answers (exactly-401 demand)
+var c04BenignHeaderRe = regexp.MustCompile(`^(Origin|Access-Control-Request-Method|Access-Control-Request-Headers|Sec-Fetch-[A-Za-z]+|X-HTTP-Method-Override|X-Method-Override|X-HTTP-Method|X-Forwarded-[A-Za-z]+|Forwarded|X-Original-URL|X-Rewrite-URL|Cookie|Accept|Content-Length): [ -~]*$`)
+var c04PlainInternalPathRe = regexp.MustCompile(`^/internal(/[A-Za-z0-9._~:-]+)*$`)
+var c04MethodTokenRe = regexp.MustCompile(`^[A-Za-z][A-Za-z-]*$`)
+
 var c04AuthNames = []string{"Authorization", "authorization", "AUTHORIZATION", "Proxy-Authorization", "X-Authorization", "Authorization "}
 
 // templates the middleware's own parsing accepts come first, shapes that carry the token in an unusable way after
@@ -607,8 +639,39 @@ func c04GenCase(t *rapid.T) c04Case {
 	if c.Cfg == "split" {
 		c.Lis = c04Weighted(t, "lis", "internal", 2, "public", 1)
 	}
-	focus := c04Weighted(t, "focus", "token", 8, "target", 9, "both", 4, "listener", 3, "climb", 6)
+	focus := c04Weighted(t, "focus", "token", 8, "target", 9, "both", 4, "listener", 3, "climb", 6, "method-headers", 5)
 	c.Note = append(c.Note, "focus="+focus)
+	if focus == "method-headers" {
+		// a well-formed request to a plain path under /internal: every method (registered for the route or not, known or not)
+		// x header sets that intermediaries / browsers / frameworks give a meaning to (CORS preflight, method override, upgrade …)
+		c.Lis = "internal"
+		pth := c04Pick(t, "mh-path", []string{"/internal/any", "/internal/opt/abc", "/internal/probe", "/internal/probe/abc", "/internal/vcr/v2/holder/vc",
+			"/internal/p/abc", "/internal/wild/a/b", "/internal", "/internal/nope", "/internal/nope/deeper"})
+		c.Note = append(c.Note, "mh-path="+pth)
+		c.Target = pth
+		if rapid.IntRange(0, 4).Draw(t, "mh-query") == 0 {
+			c.Target += "?a=b"
+		}
+		c.Method = c04Weighted(t, "mh-method", "OPTIONS", 6, "GET", 2, "POST", 2, "HEAD", 2, "PUT", 1, "DELETE", 1, "PATCH", 2, "TRACE", 2, "CONNECT", 2,
+			"PROPFIND", 1, "QUERY", 1, "M-SEARCH", 1, "FOO", 1, "get", 1, "options", 1)
+		if rapid.IntRange(0, 2).Draw(t, "mh-preflight") == 0 {
+			// what a browser sends ahead of a cross-origin call: never carries credentials
+			c.Method = "OPTIONS"
+			set := c04Pick(t, "mh-pfset", []string{"cors-preflight", "cors-preflight-headers", "cors-preflight-null"})
+			c.Extra = append(c.Extra, c04HeaderSets[set]...)
+			c.Note = append(c.Note, "hdrset="+set)
+		}
+		sets := rapid.SampledFrom([]int{1, 1, 2, 3, 0}).Draw(t, "mh-nsets")
+		for i := 0; i < sets; i++ {
+			set := c04Pick(t, "mh-set", c04HeaderSetNames)
+			c.Extra = append(c.Extra, c04HeaderSets[set]...)
+			c.Note = append(c.Note, "hdrset="+set)
+		}
+		var an []string
+		c.Auth, an = c04GenAuth(t, c04Weighted(t, "authhow-m", "none", 6, "valid", 2, "generated", 2, "empty-header", 1))
+		c.Note = append(c.Note, an...)
+		return c
+	}
 	if focus == "climb" {
 		// encoded dot-segment climbing inside a parameter of a parameterised /internal route (guard vs. router disagreement)
 		c.Lis = "internal"
@@ -737,7 +800,9 @@ func c04GenCase(t *rapid.T) c04Case {
 	case "blank":
 		c.Hosts = []string{"a b"}
 	}
-	switch c04Weighted(t, "extra", "none", 12, "xff", 1, "x-original-url", 1, "x-rewrite-url", 1, "method-override", 1, "content-length-0", 1, "chunked", 1, "body", 1) {
+	switch c04Weighted(t, "extra", "none", 12, "xff", 1, "x-original-url", 1, "x-rewrite-url", 1, "method-override", 1, "content-length-0", 1, "chunked", 1, "body", 1, "cors-preflight", 2) {
+	case "cors-preflight":
+		c.Extra = c04HeaderSets["cors-preflight"]
 	case "xff":
 		c.Extra = []string{"X-Forwarded-For: 10.1.2.3"}
 	case "x-original-url":
@@ -964,6 +1029,41 @@ func c04Run(x *h.Ctx, c c04Case) {
 		x.Class("audit=AccessGranted")
 		if !acceptable && len(x.Violations()) == 0 { // (when a handler ran as well, O1 has reported it already)
 			x.Violate("access-granted-without-token:"+form, "an AccessGranted audit event was written for a request without an acceptable token: %s", describe())
+		}
+	}
+	// O3 for every method: a well-formed request (any method token, benign extra headers) whose path is literally under /internal
+	// and that carries no acceptable token is answered 401 - whether or not a route / that method is registered there
+	// ("every failure is answered 401"; the guard runs before echo's 404 / 405 / automatic OPTIONS answers).
+	wellFormed := c.Proto == "HTTP/1.1" && c.EOL == "\r\n" && len(c.Hosts) == 1 && c.Hosts[0] == "{lis}" && c.Body == "" && c04MethodTokenRe.MatchString(c.Method)
+	for _, l := range c.Extra {
+		wellFormed = wellFormed && c04BenignHeaderRe.MatchString(l)
+	}
+	for _, a := range c.Auth {
+		if !c04FieldNameRe.MatchString(a.Name) || strings.ContainsFunc(a.Tmpl, func(r rune) bool { return (r < 0x20 && r != '\t') || r == 0x7f }) {
+			wellFormed = false
+		}
+	}
+	if wellFormed && c04PlainInternalPathRe.MatchString(pathPart) && (queryPart == "" || c04SimpleQueryRe.MatchString(queryPart)) && servedHere && !acceptable {
+		x.Class("expect=401(any-method)")
+		x.Class("expect=401:method=" + c.Method)
+		if status != 401 && len(hits) == 0 && !plain { // (plain requests are reported by O3 below)
+			x.Violate(fmt.Sprintf("auth-failure-not-401:%d:%s", status, strings.ToUpper(c.Method)), "a %s request under /internal without an acceptable token was answered %d instead of 401: %s\nextra headers: %q\nresponse: %.300q",
+				c.Method, status, describe(), c.Extra, resp)
+		}
+	}
+	preflight := strings.EqualFold(c.Method, "OPTIONS")
+	if preflight {
+		var o, m bool
+		for _, l := range c.Extra {
+			o = o || strings.HasPrefix(l, "Origin:")
+			m = m || strings.HasPrefix(l, "Access-Control-Request-Method:")
+		}
+		preflight = o && m
+	}
+	if preflight {
+		x.Class("cors-preflight-shaped")
+		if !acceptable {
+			x.Class(fmt.Sprintf("cors-preflight-shaped:no-token:status=%d", status))
 		}
 	}
 	// O3, O4
